@@ -742,6 +742,22 @@ Definition view_sidecar (s : schema) (key : N * str) (k : sinks) : option (list 
 Definition view_snapshot (s : schema) (key : N * str) (k : sinks) : option (list event) :=
   read_snapshot s (write_snapshot s (of_stream s key (k_buffer k))).
 
+(* ---------- emit sites of the source (tools/gen/sinks.py -> Gen/Sinks.v) ----------
+   `emit` above hands ONE value to all four sinks.  The extractor records, for every place where ripd publishes
+   a frame, whether the same unmodified binding feeds the log append, the store next to it (sidecar or
+   snapshot buffer) and the broadcast send. *)
+Record sink_site := {
+  ss_has_log : bool; ss_same_log : bool;
+  ss_has_store : bool; ss_same_store : bool;
+  ss_immutable : bool
+}.
+
+Definition site_ok (x : sink_site) : bool :=
+  ss_has_log x && ss_same_log x && ss_has_store x && ss_same_store x && ss_immutable x.
+
+Definition wf_sinks (l : list sink_site) : bool :=
+  match l with [] => false | _ => forallb site_ok l end.
+
 (* ---------- correspondence cases (harness/src/bin/c03.rs) ----------
    A case is one JSON document (as AST, numbers as token atoms) plus what the real crates did with it:
      c_impl_ok   : serde_json::from_str::<Event> succeeded
